@@ -128,7 +128,12 @@ class Pseudo2NetCDF:
         try:
             typecode = pvar.typecode()
         except Exception:
-            typecode = pvar[...].dtype.char
+            # the variable's own dtype: reading the data of a fully masked
+            # scalar yields a float64 constant, and character data reads as
+            # 'S', which is not a netCDF type code
+            typecode = getattr(pvar, 'dtype', pvar[...].dtype).char
+            if typecode == 'S':
+                typecode = 'S1'
 
         create_variable_kwds = self.create_variable_kwds.copy()
         if hasattr(pvar, 'missing_value'):
